@@ -44,7 +44,7 @@ def equivalents(a, pids):
     jobs = [(sid, pid, trees[sid], a.tier) for sid in trees for pid in pids]
     res = {}
     try:
-        with ThreadPoolExecutor(max_workers=14) as ex:
+        with ThreadPoolExecutor(max_workers=a.workers) as ex:
             for sid, pid, rc, rules, broken in ex.map(run_one, jobs):
                 res.setdefault(sid, {})[pid] = {'exit': rc, 'rules': rules, 'broken': broken}
     finally:
@@ -64,6 +64,8 @@ def equivalents(a, pids):
 def main():
     ap = argparse.ArgumentParser()
     ap.add_argument('--props'); ap.add_argument('--ids'); ap.add_argument('--tier', default='quick')
+    ap.add_argument('--own', action='store_true', help='run each seeded change against the check of the property it breaks only (fast regression run)')
+    ap.add_argument('--workers', type=int, default=14)
     ap.add_argument('--equivalents', action='store_true', help='run the behaviour-preserving edits of selftest/equivalents: every check must stay silent')
     a = ap.parse_args()
     from psa import props
@@ -78,10 +80,10 @@ def main():
             print('PATCH DOES NOT APPLY to current /repo tree:', sid, err[:300])
         else:
             trees[sid] = t
-    jobs = [(sid, pid, trees[sid], a.tier) for sid in trees for pid in pids]
+    jobs = [(sid, pid, trees[sid], a.tier) for sid in trees for pid in pids if not a.own or pid == sid.split('-')[0]]
     res = {}
     try:
-        with ThreadPoolExecutor(max_workers=14) as ex:
+        with ThreadPoolExecutor(max_workers=a.workers) as ex:
             for sid, pid, rc, rules, broken in ex.map(run_one, jobs):
                 res.setdefault(sid, {})[pid] = {'exit': rc, 'rules': rules, 'broken': broken}
     finally:
